@@ -138,6 +138,22 @@ def audit_property(pid):
     return res
 
 
+def witnessed(pid):
+    """property theorems of `pid` that are applied to a concrete, non-degenerate instance in Props/Witness/*.lean
+    (non-vacuity: all hypotheses proved for that instance); returns sorted theorem names"""
+    names = set()
+    wdir = os.path.join(LEAN_DIR, "CardVerif", "Props", "Witness")
+    if not os.path.isdir(wdir):
+        return []
+    for f in sorted(os.listdir(wdir)):
+        if f.endswith(".lean"):
+            txt = open(os.path.join(wdir, f), encoding="utf-8").read()
+            for m in re.finditer(r"\b(C\d\d)[bc]?\.([A-Za-z_][\w']*(?:\.[A-Za-z_][\w']*)*)", txt):
+                if m.group(1) == pid:
+                    names.add(m.group(2))
+    return sorted(names)
+
+
 def property_modules(pid):
     """the project's own modules (CardVerif.*, CardModel.*) that Audit/<pid>.lean transitively imports"""
     seen, todo = [], [f"CardVerif.Audit.{pid}"]
